@@ -6,11 +6,12 @@ import CohdlVerif.Model.C06
   list  = names joined by `,`                    (`-` = the empty list)
   requests:
     pick <base> <used-list>                      -> name          (`VhdlScope.complete_setup` collision search)
-    san <name>                                   -> name          (sanitising, fixed behaviour)
+    san <empty> <pre> <name>                     -> name          (sanitising with the compiler's two spellings)
+    goodcfg <empty> <pre>                        -> 1 | 0
     valid <name>                                 -> 1 | 0         (VHDL basic identifier)
     lower <name>                                 -> name
     raw <override|-> <hint|-> <fallback|->       -> name | reject
-    assign <reserved> <additional> <module> <entity> <archReserved> <arch> <proc>*
+    assign <empty> <pre> <reserved> <additional> <module> <entity> <archReserved> <arch> <proc>*
                                                  -> <module> <entity> <arch> <proc>*   (assigned names)
 -/
 namespace CohdlVerif.C06
@@ -36,7 +37,14 @@ def handle : List String → String
       match parseName b, parseList u with
       | some b, some u => showName (pick u b)
       | _, _ => "bad-op"
-  | ["san", n] => match parseName n with | some n => showName (sanitize n) | none => "bad-op"
+  | ["san", e, pre, n] =>
+      match parseName e, parseName pre, parseName n with
+      | some e, some pre, some n => showName (sanitizeWith ⟨e, pre⟩ n)
+      | _, _, _ => "bad-op"
+  | ["goodcfg", e, pre] =>
+      match parseName e, parseName pre with
+      | some e, some pre => if goodCfg ⟨e, pre⟩ then "1" else "0"
+      | _, _ => "bad-op"
   | ["valid", n] => match parseName n with | some n => (if basicId n then "1" else "0") | none => "bad-op"
   | ["lower", n] => match parseName n with | some n => showName (lower n) | none => "bad-op"
   | ["raw", o, h, f] =>
@@ -46,13 +54,14 @@ def handle : List String → String
           | some n => showName n
           | none => "reject"
       | _, _, _ => "bad-op"
-  | "assign" :: r :: ad :: m :: e :: ar :: a :: ps =>
-      match parseList r, parseList ad, parseList m, parseList e, parseList ar, parseList a, ps.mapM parseList with
-      | some r, some ad, some m, some e, some ar, some a, some ps =>
-          let res := assignDesign ⟨r, ad, m, e, ar, a, ps⟩
+  | "assign" :: ce :: cp :: r :: ad :: m :: e :: ar :: a :: ps =>
+      match parseName ce, parseName cp, parseList r, parseList ad, parseList m, parseList e, parseList ar, parseList a,
+          ps.mapM parseList with
+      | some ce, some cp, some r, some ad, some m, some e, some ar, some a, some ps =>
+          let res := assignDesign ⟨⟨ce, cp⟩, r, ad, m, e, ar, a, ps⟩
           " ".intercalate ([showList res.moduleNames, showList res.entityNames, showList res.archNames]
             ++ res.procNames.map showList)
-      | _, _, _, _, _, _, _ => "bad-op"
+      | _, _, _, _, _, _, _, _, _ => "bad-op"
   | _ => "bad-op"
 
 end CohdlVerif.C06
